@@ -1,31 +1,25 @@
 //go:build verif
 
-package sum
+package sum_test
 
-// C19 for Prio3Sum: constructor table, exact aggregates of all small batches,
-// malicious-client reports and single-field alterations. The generic machinery
+// C19, exported-API units (package sum_test: the compiler guarantees nothing unexported is named) for Prio3Sum: constructor table, exact aggregates of all small batches,
+// single-field alterations, decoder round trips. The generic machinery
 // is in vdaf/prio3/internal/verifc19 (overlay only); oracles in verifref/prio.
 
 import (
 	"fmt"
-	"math/big"
 	"testing"
 
 	"github.com/cloudflare/circl/internal/verifmc"
 	"github.com/cloudflare/circl/internal/verifref/prio"
-	"github.com/cloudflare/circl/vdaf/prio3/internal/prio3"
 	"github.com/cloudflare/circl/vdaf/prio3/internal/verifc19"
+	"github.com/cloudflare/circl/vdaf/prio3/sum"
 )
 
-// c19Evil shares an arbitrary encoded measurement with the real proof system.
-type c19Evil struct{ *flpSum }
-
-func (c19Evil) Encode(v Vec) (Vec, error) { return append(Vec{}, v...), nil }
-
-func c19Sys() *verifc19.Sys[uint64, uint64, Vec, Fp] {
-	return &verifc19.Sys[uint64, uint64, Vec, Fp]{
-		Make: func(i prio.Inst, n uint8) (verifc19.VDAF[uint64, uint64, Vec, Fp], error) {
-			s, err := New(n, i.Max, verifc19.Ctx)
+func c19Sys() *verifc19.Sys[uint64, uint64, sum.Vec, sum.Fp] {
+	return &verifc19.Sys[uint64, uint64, sum.Vec, sum.Fp]{
+		Make: func(i prio.Inst, n uint8) (verifc19.VDAF[uint64, uint64, sum.Vec, sum.Fp], error) {
+			s, err := sum.New(n, i.Max, verifc19.Ctx)
 			if err != nil {
 				return nil, err
 			}
@@ -34,20 +28,9 @@ func c19Sys() *verifc19.Sys[uint64, uint64, Vec, Fp] {
 			}
 			return s, nil
 		},
-		MakeEvil: func(i prio.Inst, n uint8) (verifc19.EvilSharder[Vec, Fp], error) {
-			f, err := newFlpSum(i.Max)
-			if err != nil {
-				return nil, err
-			}
-			p, err := prio3.New[c19Evil, Vec, uint64, Vec, Fp, *Fp](c19Evil{f}, 2, n, verifc19.Ctx)
-			if err != nil {
-				return nil, err
-			}
-			return &p, nil
-		},
 		ToM:   func(m []uint64) uint64 { return m[0] },
 		FromA: func(a *uint64) []uint64 { return []uint64{*a} },
-		Order: Fp{}.Order(),
+		Order: sum.Fp{}.Order(),
 	}
 }
 
@@ -64,58 +47,6 @@ func TestVerifC19_sum_ctor(t *testing.T) {
 	}
 	s.UnitCtor(r, insts, []int{2, 3, 255, 0, 1})
 
-	// Consequence of an accepted bound with 2^bits >= modulus, shown on the real code: a measurement
-	// above the bound is accepted. Only runs while the constructor accepts such a bound.
-	for _, max := range []uint64{1 << 63, p - 1} {
-		inst := c19Sum(max)
-		caseID := fmt.Sprintf("wrap|%s", inst)
-		if !r.Want(caseID) {
-			continue
-		}
-		var v verifc19.VDAF[uint64, uint64, Vec, Fp]
-		var ev verifc19.EvilSharder[Vec, Fp]
-		var err, err2 error
-		if p, _ := verifmc.Try(func() { v, err = s.Make(inst, 2); ev, err2 = s.MakeEvil(inst, 2) }); p || err != nil || err2 != nil {
-			r.Count("wrap_demo_skipped_constructor_refuses", 1)
-			continue
-		}
-		r.Eval(1)
-		// m' = max+1 is outside [0, max]. Its "offset encoding" b = m' + offset = 2^64 does not fit 64 bits,
-		// but 2^64 mod p = 2^32-1 does: encode (bits of m', bits of 2^32-1).
-		mPrime := new(big.Int).Add(new(big.Int).SetUint64(max), big.NewInt(1))
-		b := new(big.Int).Mod(new(big.Int).Lsh(big.NewInt(1), 64), prio.F64.P)
-		var vec []*big.Int
-		for k := 0; k < 64; k++ {
-			vec = append(vec, big.NewInt(int64(mPrime.Bit(k))))
-		}
-		for k := 0; k < 64; k++ {
-			vec = append(vec, big.NewInt(int64(b.Bit(k))))
-		}
-		params := v.Params()
-		vk, nonce, rnd := verifc19.Material(params.RandSize(), r.Seed(), 3, 0)
-		vv := make(Vec, len(vec))
-		if err := vv.UnmarshalBinary(prio.F64.EncVec(vec)); err != nil {
-			t.Fatal(err)
-		}
-		var res verifc19.Result[Vec, Fp]
-		if p, what := verifmc.Try(func() {
-			pub, in, err := ev.Shard(vv, &nonce, rnd)
-			if err != nil {
-				panic(err)
-			}
-			res = verifc19.Prepare(v, &vk, &nonce, pub, in, nil, false)
-		}); p {
-			r.Outcome("wrap-demo:panic:" + verifmc.PanicClass(what))
-			continue
-		}
-		if res.Accepted() {
-			r.Violation("C19|Sum.prepare|out-of-range-measurement-accepted|bound with 2^bits >= modulus", caseID,
-				fmt.Sprintf("%s: a report encoding the measurement %s > max is accepted by both aggregators (bits of max+offset wrap modulo the field)", inst, mPrime),
-				map[string]interface{}{"instance": inst.String(), "measurement": mPrime.String(), "second_half_encodes": b.String()})
-		} else {
-			r.Outcome("wrap-demo:rejected:" + res.Where)
-		}
-	}
 }
 
 func TestVerifC19_sum_agg(t *testing.T) {
